@@ -3,7 +3,7 @@
    concatenation of the chunk texts is t. *)
 From RS Require Import Base.Prelude Base.Text Codec.Vlq Codec.CodecSpec Stream.Types Stream.Leaves
   Stream.Tree Checkers.ChkTree Proofs.StreamText Proofs.StreamLeaves Proofs.StreamMap
-  Proofs.StreamConcat Proofs.StreamTree.
+  Proofs.StreamConcat Proofs.StreamTree Stream.Replace Proofs.RStreamText Proofs.RStreamTree.
 
 (* the two text splitters lose and duplicate nothing, for arbitrary bytes *)
 Theorem C01_splitters : forall t,
@@ -40,3 +40,22 @@ Theorem C01_reassemble_partial : forall st s cols,
   reassembles evs (source s) = true /\ gi = advance 1 0 (source s) /\ st' = st.
 Proof. exact wf_stream_reassembles. Qed.
 Print Assumptions C01_reassemble_partial.
+
+(* ReplaceSource as a stream transformer: whatever the inner source streams (any chunking that
+   reassembles to T), the output reassembles to the spliced text - overlapping, nested, touching
+   replacements and positions beyond the end included; multi-byte text included *)
+Theorem C01_replace : forall rs ievs T gi,
+  Forall (fun r => r_start r <= r_end r) rs -> reassembles ievs T = true ->
+  reassembles (fst (replace_stream (sort_repls rs) ievs gi)) (replace_source_text T rs) = true.
+Proof. exact replace_source_stream_reassembles. Qed.
+Print Assumptions C01_replace.
+
+(* trees over Raw* / Original / SourceMapSource (sorted map) / Concat / Replace to any depth, any
+   valid UTF-8 texts, both column settings; tree_wf: replacement bounds ordered and on char
+   boundaries or beyond the end *)
+Theorem C01_reassemble_replace_partial : forall st s cols,
+  RStreamTree.rshape s = true -> tree_wf s = true -> rmaps_sorted s = true ->
+  let '(evs, gi, st') := stream st s (mkOpts cols false) in
+  reassembles evs (source s) = true /\ st' = st.
+Proof. exact rshape_stream_reassembles. Qed.
+Print Assumptions C01_reassemble_replace_partial.
